@@ -50,6 +50,11 @@ var netAlgProfile = func() [][2]string {
 			out = append(out, [2]string{a, p})
 		}
 	}
+	// extension profiles decode through the embedding-aware helpers: three more
+	// sweeps, algorithms rotating
+	for i, p := range []string{"xp2", "xw", "xp1", "xc"} {
+		out = append(out, [2]string{allAlgs[(i*2)%len(allAlgs)], p})
+	}
 	return out
 }()
 
@@ -101,7 +106,7 @@ func (netWorld) Gen(prop, tier string, idx int, r *Rng) *Trace {
 		return &Trace{World: "W-NET", Cfg: cj, Ops: ops}
 	}
 	nAtt := r.Range(2, 5)
-	fams := []string{"p1", "p2", "p1", "p2", "xp2", "xw"}
+	fams := []string{"p1", "p2", "p1", "p2", "xp2", "xw", "xc"}
 	for i := 0; i < nAtt; i++ {
 		a := NetAttester{Signer: genSignerSpec(r, prop == "C02" && tier == "quick"), ViaSetters: r.Chance(1, 3), Decoded: r.Chance(1, 4)}
 		if i > 0 && r.Chance(1, 3) {
@@ -165,7 +170,11 @@ func (netWorld) Gen(prop, tier string, idx int, r *Rng) *Trace {
 		labels = append(labels, l)
 		// the fault-free arm
 		gmode := r.Intn(5)
-		ops = append(ops, Op{K: "deliver", T: l, B: curKey[ai], C: gmode})
+		gtouch := 0
+		if r.Chance(1, 4) {
+			gtouch = r.Range(1, 3)
+		}
+		ops = append(ops, Op{K: "deliver", T: l, B: curKey[ai], C: gmode, D: gtouch})
 		if prop == "C03" {
 			if r.Chance(1, 4) {
 				ops = append(ops, Op{K: "deliver", T: l, B: curKey[ai], C: r.Intn(3)}) // duplicate delivery
@@ -197,7 +206,11 @@ func (netWorld) Gen(prop, tier string, idx int, r *Rng) *Trace {
 				// straight after the genuine token, through the same verifier and its one receive buffer
 				dmode = gmode
 			}
-			ops = append(ops, Op{K: "deliver", T: cl, B: key, C: dmode})
+			touch := 0
+			if r.Chance(1, 3) {
+				touch = r.Range(1, 3)
+			}
+			ops = append(ops, Op{K: "deliver", T: cl, B: key, C: dmode, D: touch})
 		}
 		// a Byzantine attester crafts a message with its own key and sends it to the verifier that trusts that key
 		if r.Chance(1, 3) {
@@ -367,7 +380,7 @@ func (netWorld) Exec(prop string, t *Trace) *Result {
 	roundTrips := 0
 	shape := ""
 
-	deliver := func(i int, cur []byte, key int, mode int, s *netSlot, sweep bool) {
+	deliver := func(i int, cur []byte, key int, mode int, touch int, s *netSlot, sweep bool) {
 		res.Evals++
 		buf := append([]byte{}, cur...)
 		if mode%5 >= 3 {
@@ -407,6 +420,24 @@ func (netWorld) Exec(prop string, t *Trace) *Result {
 						verr = fmt.Errorf("panic: %v", r)
 					}
 				}()
+				// what a verifier may do with a decoded Evidence before it asks for the verdict
+				switch touch {
+				case 1:
+					if ev.Claims != nil {
+						_ = ev.SetClaims(ev.Claims)
+						res.Probes["verifier_reattached_claims_before_verify"]++
+					}
+				case 2:
+					if ev.Claims != nil {
+						_ = ev.Claims.Validate()
+						_, _ = psatoken.EncodeClaimsToCBOR(ev.Claims)
+						_ = getterObs(ev.Claims)
+						res.Probes["verifier_read_claims_before_verify"]++
+					}
+				case 3:
+					_ = ev.Verify(pubKey(wrongKeyDet(key)))
+					res.Probes["verifier_tried_another_key_first"]++
+				}
 				verr = ev.Verify(pubKey(key))
 			}()
 		}
@@ -744,7 +775,7 @@ func (netWorld) Exec(prop string, t *Trace) *Result {
 			if op.B != s.key {
 				res.Faults["net.misroute"]++
 			}
-			deliver(i, s.cur, op.B, op.C, s, false)
+			deliver(i, s.cur, op.B, op.C, op.D, s, false)
 		case "bitsweep":
 			s := slots[op.T]
 			if s == nil || s.orig == nil {
@@ -754,7 +785,7 @@ func (netWorld) Exec(prop string, t *Trace) *Result {
 			for bit := 0; bit < n; bit++ {
 				cur := append([]byte{}, s.orig...)
 				cur[bit/8] ^= 1 << uint(bit%8)
-				deliver(i, cur, op.B, 0, s, true)
+				deliver(i, cur, op.B, 0, 0, s, true)
 			}
 			res.Faults["net.bitflip"] += n
 			res.Probes["bitsweep_tokens"]++
@@ -791,6 +822,11 @@ func (netWorld) Simplify(o Op) []Op {
 		c.C = 0
 		out = append(out, c)
 	}
+	if o.K == "deliver" && o.D != 0 {
+		c := o
+		c.D = 0
+		out = append(out, c)
+	}
 	if o.K == "emit" && o.C != 0 {
 		c := o
 		c.C = 0
@@ -802,4 +838,19 @@ func (netWorld) Simplify(o Op) []Op {
 		out = append(out, c)
 	}
 	return out
+}
+
+// wrongKeyDet: another pool key of the same kind as key (the next one), for a
+// verifier that tries the wrong key before the right one.
+func wrongKeyDet(key int) int {
+	if key < 0 || key >= len(keyPool) {
+		return 0
+	}
+	for d := 1; d < len(keyPool); d++ {
+		k := (key + d) % len(keyPool)
+		if keyPool[k].Kind == keyPool[key].Kind {
+			return k
+		}
+	}
+	return (key + 1) % len(keyPool)
 }
